@@ -1,23 +1,40 @@
-(** C09 — obligations over the regenerated inventory of pointer sites (Gen/C09Facts.v). *)
+(** C09 — obligations over the regenerated inventory of pointer sites (Gen/C09Facts.v).
+    They hold for the current tree and BREAK when the tree changes in a way that matters:
+    a new function touching Keeper.Bank.StateDB, or any access that is not guarded against
+    check-state contexts (queries, simulations, CheckTx). *)
 From Coq Require Import String List Bool.
 Import ListNotations.
 Require Import Nib.C09.Model Nib.C09.Spec Nib.C09.Sites Nib.C09.Proofs Nib.Gen.C09Facts.
 
 (** Every function of the current tree that reads or writes Keeper.Bank.StateDB is one of the known
-    message-server / constructor / mirror functions of x/evm/keeper — in particular no gRPC query
+    constructor / accessor / mirror functions of x/evm/keeper — in particular no gRPC query
     handler (EthCall, EstimateGas, TraceTx, …) touches the pointer directly. *)
 Theorem C09_pointer_sites_known : forallb site_known ptr_sites = true.
 Proof. vm_compute. reflexivity. Qed.
 Print Assumptions C09_pointer_sites_known.
 
-(** What is proved about the model the current tree is compared with: non-interference for every
-    schedule when every access is guarded, otherwise the refutation (the open finding). *)
-Theorem C09_current_tree :
-  (mode_of ptr_sites = Isolated /\ noninterference (mode_of ptr_sites)) \/
-  (mode_of ptr_sites = Shared /\ ~ noninterference (mode_of ptr_sites)).
-Proof.
-  destruct (mode_of ptr_sites) eqn:E.
-  - right. split; [reflexivity | exact not_noninterference_shared].
-  - left. split; [reflexivity | exact noninterference_isolated].
-Qed.
+(** Every access of the current tree is guarded by ctx.IsCheckTx(): requests never read, publish
+    or clear the pointer.  (Fails as soon as one unguarded access appears.) *)
+Theorem C09_every_access_guarded : forallb site_guarded ptr_sites = true /\ mode_of ptr_sites = Isolated.
+Proof. split; vm_compute; reflexivity. Qed.
+Print Assumptions C09_every_access_guarded.
+
+(** The statement about the code as it is: the model selected by the facts of the current tree
+    satisfies the FULL non-interference statement — for all request scripts, all initial stores and
+    all schedules, pointer and deliver thread are those of the run of the deliver thread alone.
+    (Type-checks only while [mode_of ptr_sites] computes to [Isolated]; for a tree with an
+    unguarded access it would be the refuted statement [noninterference Shared].) *)
+Theorem C09_current_tree : noninterference (mode_of ptr_sites).
+Proof. exact noninterference_isolated. Qed.
 Print Assumptions C09_current_tree.
+
+(** … including: the interleaved run equals the complete sequential execution of DeliverTx. *)
+Theorem C09_current_tree_sequential :
+  forall (ths : list (list step)) (l0 : tid -> ledger) (sched : list tid),
+    length (nth 0 ths []) <= count0 sched ->
+    let m := mode_of ptr_sites in
+    let seq := run m (repeat 0 (length (nth 0 ths []))) (init ths l0) in
+    let got := run m sched (init ths l0) in
+    committed got = committed seq /\ written got = written seq /\ tx_result got = tx_result seq /\ ptr got = ptr seq.
+Proof. exact isolated_equals_sequential. Qed.
+Print Assumptions C09_current_tree_sequential.
